@@ -288,7 +288,10 @@ def regex_lits():
 
 @st.composite
 def comparison(draw, d, F):
-    ty = draw(st.sampled_from(["Int", "Int", "Real", "Str", "Str", "DateTime", "Date", "Num"]))
+    tys = ["Int", "Int", "Real", "Str", "Str", "DateTime", "Date", "Num"]
+    if "time" in F.funcs:
+        tys.append("Time")
+    ty = draw(st.sampled_from(tys))
     op = draw(st.sampled_from(CMP_OPS))
     if ty == "Num":
         lt, rt = draw(st.sampled_from([("Int", "Real"), ("Real", "Int")]))
